@@ -132,6 +132,10 @@ func (n *ModelNode) info() map[string]interface{} {
 
 func (n *ModelNode) ServeHTTP(w http.ResponseWriter, r *http.Request) {
 	if r.URL.Path == "/ping" {
+		if r.Method != "GET" { // the real router registers /ping for GET only
+			w.WriteHeader(405)
+			return
+		}
 		w.Write([]byte("pong"))
 		return
 	}
